@@ -216,6 +216,12 @@ class Histories(SubCheck):
         def to(t):
             return DEFAULT_TIMEOUT if t == DEFAULT else t
 
+        def tk(t, **kw):
+            # the default timeout is requested by OMITTING the argument (the declared default is part of the contract)
+            if t != DEFAULT:
+                kw['timeout'] = t
+            return {k: v for k, v in kw.items()}
+
         def outcome(fn):
             try:
                 return ('ok', fn())
@@ -261,17 +267,17 @@ class Histories(SubCheck):
                         u[1].add(op[-1])
                     if name == 'set':
                         _, k, v, t, ver = op
-                        judge(op, outcome(lambda: dj.set(k, v, to(t), ver)), None, outcome(lambda: model.set(k, v, t, ver)))
-                        lm.set(k, v, to(t), ver)
+                        judge(op, outcome(lambda: dj.set(k, v, **tk(t, version=ver))), None, outcome(lambda: model.set(k, v, t, ver)))
+                        lm.set(k, v, **tk(t, version=ver))
                     elif name == 'add':
                         _, k, v, t, ver = op
-                        judge(op, outcome(lambda: dj.add(k, v, to(t), ver)), outcome(lambda: lm.add(k, v, to(t), ver)), outcome(lambda: model.add(k, v, t, ver)))
+                        judge(op, outcome(lambda: dj.add(k, v, **tk(t, version=ver))), outcome(lambda: lm.add(k, v, **tk(t, version=ver))), outcome(lambda: model.add(k, v, t, ver)))
                     elif name == 'get':
                         _, k, ver = op
                         judge(op, outcome(lambda: dj.get(k, 'MISS', ver)), outcome(lambda: lm.get(k, 'MISS', ver)), outcome(lambda: model.get(k, 'MISS', ver)))
                     elif name == 'touch':
                         _, k, t, ver = op
-                        judge(op, outcome(lambda: dj.touch(k, to(t), ver)), outcome(lambda: lm.touch(k, to(t), ver)), outcome(lambda: model.touch(k, t, ver)))
+                        judge(op, outcome(lambda: dj.touch(k, **tk(t, version=ver))), outcome(lambda: lm.touch(k, **tk(t, version=ver))), outcome(lambda: model.touch(k, t, ver)))
                     elif name == 'delete':
                         _, k, ver = op
                         rm = outcome(lambda: model.delete(k, ver))
@@ -300,7 +306,7 @@ class Histories(SubCheck):
                         rm = ('ok', [])
                         for k in ks:
                             model.set(k, v, t, ver)
-                        judge(op, outcome(lambda: dj.set_many(data, to(t), ver)), outcome(lambda: lm.set_many(data, to(t), ver)), rm)
+                        judge(op, outcome(lambda: dj.set_many(data, **tk(t, version=ver))), outcome(lambda: lm.set_many(data, **tk(t, version=ver))), rm)
                     elif name == 'delete_many':
                         _, ks, ver = op
                         for k in ks:
@@ -316,7 +322,7 @@ class Histories(SubCheck):
                             model.add(k, dflt, t, ver)
                             return model.get(k, dflt, ver)
 
-                        judge(op, outcome(lambda: dj.get_or_set(k, arg, to(t), ver)), outcome(lambda: lm.get_or_set(k, arg, to(t), ver)), outcome(m_get_or_set))
+                        judge(op, outcome(lambda: dj.get_or_set(k, arg, **tk(t, version=ver))), outcome(lambda: lm.get_or_set(k, arg, **tk(t, version=ver))), outcome(m_get_or_set))
                     elif name in ('incr_version', 'decr_version'):
                         _, k, ver = op
                         d = 1 if name == 'incr_version' else -1
